@@ -167,7 +167,10 @@ func denoteWriterOps(c *lib.Ctx, h []lib.SOp) (strip, vis []byte, ok bool) {
 			f := c.Subst(op.F)
 			k := 0
 			for i := 0; i < len(f); i++ {
-				if f[i] == '%' && i+1 < len(f) && f[i+1] == 'v' {
+				if f[i] == '%' && i+1 < len(f) && f[i+1] == '%' {
+					add([]byte{'%'}, true, true)
+					i++
+				} else if f[i] == '%' && i+1 < len(f) && f[i+1] == 'v' {
 					args(op.Ts[k:k+1], true)
 					k++
 					i++
